@@ -525,3 +525,156 @@ Theorem cli_target_and_command : forall W c,
   snd (fst (cli_run W c)) = c_output c /\
   snd (cli_run W c) = snd (fst (step W (c_quiet c) (cli_state c) (cli_line c))).
 Proof. intros. split; reflexivity. Qed.
+
+(* ---- whole lines: `.set NAME VALUE` and `.set NAME` for plain tokens ---- *)
+Definition plain (c : Z) : bool :=
+  negb (sh_ws c) && negb (sh_quote c) && negb (c =? 92) && negb (py_isspace c).
+
+Lemma plain_inv : forall c, plain c = true ->
+  sh_ws c = false /\ sh_quote c = false /\ (c =? 92) = false /\ py_isspace c = false.
+Proof.
+  intros c H. unfold plain in H. repeat (apply andb_true_iff in H; destruct H as [H ?]).
+  repeat split; apply negb_true_iff; assumption.
+Qed.
+
+Lemma shlex_word : forall w rest tok q acc, forallb plain w = true ->
+  shlex_go (w ++ rest) SA tok q acc = shlex_go rest SA (rev w ++ tok) q acc.
+Proof.
+  induction w as [|a w IH]; intros rest tok q acc H; [reflexivity|].
+  simpl in H. apply andb_true_iff in H. destruct H as [Ha Hw].
+  destruct (plain_inv a Ha) as (H1 & H2 & H3 & _).
+  cbn [app shlex_go]. rewrite H1, H2, H3. rewrite IH by assumption.
+  cbn [rev]. rewrite <- app_assoc. reflexivity.
+Qed.
+
+Lemma shlex_one : forall n, n <> [] -> forallb plain n = true -> shlex_split n = ShOk [n].
+Proof.
+  intros [|c n] Hne H; [congruence|]. simpl in H. apply andb_true_iff in H. destruct H as [Hc Hn].
+  destruct (plain_inv c Hc) as (H1 & H2 & H3 & _).
+  unfold shlex_split. cbn [shlex_go]. rewrite H1, H3, H2.
+  rewrite <- (app_nil_r n) at 1. rewrite shlex_word by assumption. cbn [shlex_go].
+  destruct (rev n ++ [c]) eqn:E; [destruct (rev n); discriminate|].
+  rewrite <- E. rewrite rev_app_distr, rev_involutive. reflexivity.
+Qed.
+
+Lemma shlex_two : forall n v, n <> [] -> v <> [] -> forallb plain n = true -> forallb plain v = true ->
+  shlex_split (n ++ [32] ++ v) = ShOk [n; v].
+Proof.
+  intros [|c n] [|d v] Hn Hv Pn Pv; try congruence.
+  simpl in Pn, Pv. apply andb_true_iff in Pn. destruct Pn as [Hc Pn]. apply andb_true_iff in Pv. destruct Pv as [Hd Pv].
+  destruct (plain_inv c Hc) as (C1 & C2 & C3 & _). destruct (plain_inv d Hd) as (D1 & D2 & D3 & _).
+  unfold shlex_split. cbn [app shlex_go]. rewrite C1, C3, C2.
+  rewrite shlex_word by assumption. cbn [app shlex_go]. change (sh_ws 32) with true. cbv iota.
+  destruct (rev n ++ [c]) eqn:E; [destruct (rev n); discriminate|]. rewrite <- E.
+  rewrite D1, D3, D2.
+  rewrite <- (app_nil_r v) at 1. rewrite shlex_word by assumption. cbn [shlex_go].
+  destruct (rev v ++ [d]) eqn:E2; [destruct (rev v); discriminate|]. rewrite <- E2.
+  cbn [rev app]. rewrite !rev_app_distr, !rev_involutive. reflexivity.
+Qed.
+
+Lemma rstrip_noop : forall f l x, f x = false -> rstrip_by f (l ++ [x]) = l ++ [x].
+Proof.
+  intros f l x H. unfold rstrip_by. rewrite rev_app_distr. cbn [rev app dropwhile]. rewrite H.
+  cbn [rev]. rewrite rev_involutive. reflexivity.
+Qed.
+
+Lemma strip_noop : forall c l x, py_isspace c = false -> py_isspace x = false -> strip (c :: l ++ [x]) = c :: l ++ [x].
+Proof.
+  intros c l x Hc Hx. unfold strip, lstrip_by. cbn [dropwhile]. rewrite Hc.
+  change (c :: l ++ [x]) with ((c :: l) ++ [x]). apply rstrip_noop. assumption.
+Qed.
+
+Lemma plain_last : forall v, v <> [] -> forallb plain v = true ->
+  exists v0 x, v = v0 ++ [x] /\ py_isspace x = false.
+Proof.
+  intros v Hne H. destruct (exists_last Hne) as (v0 & x & ->). exists v0, x. split; auto.
+  rewrite forallb_app in H. apply andb_true_iff in H. destruct H as [_ H]. simpl in H.
+  rewrite andb_true_r in H. apply plain_inv in H. tauto.
+Qed.
+
+Lemma classify_set_line : forall l x,
+  py_isspace x = false -> py_isspace (hd x l) = false ->
+  classify (s2z ".set " ++ l ++ [x]) = Command false (s2z "set") (l ++ [x]).
+Proof.
+  intros l x Hx Hc.
+  unfold classify, cmd_parseline.
+  assert (strip (s2z ".set " ++ l ++ [x]) = s2z ".set " ++ l ++ [x]) as ->.
+  { change (s2z ".set " ++ l ++ [x]) with (46 :: ([115; 101; 116; 32] ++ l) ++ [x]).
+    apply strip_noop; auto. }
+  change (s2z ".set " ++ l ++ [x]) with (46 :: 115 :: 101 :: 116 :: 32 :: l ++ [x]).
+  change (46 =? 63) with false. change (46 =? 33) with false. cbv iota.
+  change (takewhile identchar (46 :: 115 :: 101 :: 116 :: 32 :: l ++ [x])) with [46; 115; 101; 116].
+  change (dropwhile identchar (46 :: 115 :: 101 :: 116 :: 32 :: l ++ [x])) with (32 :: l ++ [x]).
+  cbv iota beta. change (46 =? 46) with true. cbv iota.
+  change (str_eqb [115; 101; 116] (s2z "EOF")) with false. cbv iota.
+  change (starts_with [46] (46 :: 115 :: 101 :: 116 :: 32 :: l ++ [x])) with true. cbv iota.
+  assert (strip (32 :: l ++ [x]) = l ++ [x]) as ->.
+  { unfold strip, lstrip_by. cbn [dropwhile]. change (py_isspace 32) with true. cbv iota.
+    assert (dropwhile py_isspace (l ++ [x]) = l ++ [x]) as ->.
+    { destruct l as [|c l]; cbn [app dropwhile hd] in *; [rewrite Hx|rewrite Hc]; reflexivity. }
+    apply rstrip_noop. assumption. }
+  reflexivity.
+Qed.
+
+Lemma plain_first : forall n x, forallb plain n = true -> py_isspace x = false -> py_isspace (hd x n) = false.
+Proof.
+  intros [|c n] x H Hx; simpl; auto. simpl in H. apply andb_true_iff in H. destruct H as [H _].
+  apply plain_inv in H. tauto.
+Qed.
+
+Theorem set_line : forall (W : World) quiet st n v cur val,
+  n <> [] -> v <> [] -> forallb plain n = true -> forallb plain v = true ->
+  lookup st n = Some cur -> parse_value n (type_of cur) v = inr val ->
+  step W quiet st (s2z ".set " ++ n ++ [32] ++ v) = (update st n val, [], false) /\
+  step W quiet (update st n val) (s2z ".set " ++ n) = (update st n val, [echo W n val], false).
+Proof.
+  intros W quiet st n v cur val Hn Hv Pn Pv Hl Hp.
+  destruct (plain_last v Hv Pv) as (v0 & x & Ev & Hx).
+  destruct (plain_last n Hn Pn) as (n0 & y & En & Hy).
+  split.
+  - assert (classify (s2z ".set " ++ n ++ [32] ++ v) = Command false (s2z "set") (n ++ [32] ++ v)) as Hcl.
+    { rewrite Ev. replace (n ++ [32] ++ v0 ++ [x]) with ((n ++ [32] ++ v0) ++ [x]) by (rewrite <- !app_assoc; reflexivity).
+      apply classify_set_line; auto.
+      destruct n as [|c n']; [congruence|]. cbn [app hd]. apply (plain_first (c :: n') x Pn Hx). }
+    rewrite (step_set W quiet st _ false _ Hcl).
+    rewrite (set_assign W st (n ++ [32] ++ v) n v cur val); auto.
+    + destruct n; [congruence|discriminate].
+    + apply shlex_two; auto.
+  - assert (classify (s2z ".set " ++ n) = Command false (s2z "set") n) as Hcl.
+    { rewrite En. apply classify_set_line; auto. rewrite En in Pn.
+      rewrite forallb_app in Pn. apply andb_true_iff in Pn. destruct Pn as [Pn0 _]. apply plain_first; auto. }
+    rewrite (step_set W quiet _ _ false _ Hcl).
+    rewrite (set_echo W _ n n val); auto.
+    + apply shlex_one; auto.
+    + eapply lookup_update_same; eauto.
+Qed.
+
+(* ---- named queries: the first directive of a name wins; `.run *` runs them all in order ---- *)
+Lemma find_dedup : forall (W : World) name l seen,
+  mem name seen = false ->
+  find (fun q => str_eqb (q_name q) name) (dedup_q seen l) = find (fun q => str_eqb (q_name q) name) l.
+Proof.
+  intros W name. induction l as [|q t IH]; intros seen Hs; [reflexivity|].
+  cbn [dedup_q find]. destruct (mem (q_name q) seen) eqn:Hm.
+  - assert (str_eqb (q_name q) name = false) as ->.
+    { destruct (str_eqb (q_name q) name) eqn:E; auto. apply str_eqb_eq in E. rewrite E in Hm. congruence. }
+    apply IH. assumption.
+  - cbn [find]. destruct (str_eqb (q_name q) name) eqn:E; [reflexivity|].
+    apply IH. unfold mem. cbn [existsb]. rewrite str_eqb_sym, E. exact Hs.
+Qed.
+
+Theorem find_query_first : forall (W : World) name,
+  find_query W name = find (fun q => str_eqb (q_name q) name) (directives W).
+Proof. intros W name. unfold find_query, named_queries. apply (find_dedup W). reflexivity. Qed.
+
+Theorem run_all_spec : forall (W : World) st l,
+  (forall q, In q l -> raised W (execute W st (q_text q) (Some (q_date q))) = false) ->
+  run_all W st l =
+  flat_map (fun q => println W Stdout (q_name q ++ [58]) :: execute W st (q_text q) (Some (q_date q))
+                     ++ [println W Stdout []; println W Stdout []]) l.
+Proof.
+  intros W st. induction l as [|q t IH]; intro H; [reflexivity|].
+  cbn [run_all flat_map]. rewrite (H q (or_introl eq_refl)).
+  rewrite IH by (intros q' Hq; apply H; right; assumption).
+  cbn [app]. f_equal. rewrite <- app_assoc. reflexivity.
+Qed.
